@@ -232,7 +232,7 @@ def pipeline_cases(draw):
     pair = draw(gen.image_pair(min_rows=7, max_rows=12, min_cols=10, max_cols=18, max_val=9, masks=True))
     steps = draw(gen.legal_pipeline(validation=True, fill=False, repeat_validation=True, max_post=4))
     a = draw(st.integers(-4, 1))
-    return {"pair": pair, "pipeline": steps, "disp": [a, a + draw(st.integers(0, 4))]}
+    return {"pair": pair, "pipeline": steps, "disp": gen.clamp_interval([a, a + draw(st.integers(0, 4))], pair["W"], steps)}
 
 
 def pipeline_body(ctx: Ctx, p: dict) -> None:
